@@ -223,6 +223,12 @@ def specGo : PState → List VTok → List SItem → Option (List SItem)
   | _, .semi :: _, acc => some acc.reverse
   | _, _ :: _, _ => none
 
+/-- the reading of a gap-free stream with the three conditions of `_setCssText` -/
+def specValue (cs : List VTok) : Option (List SItem) :=
+  match specGo .start cs [] with
+  | some seq => if seq.any SItem.isTerm && seq.all SItem.wf then some seq else none
+  | none => none
+
 def SItem.isComment : SItem → Bool
   | .comment _ => true
   | _ => false
